@@ -7,11 +7,9 @@ NOT_APPLICABLE = {}
 HOOK_COMMITS = []
 # only checks the coordinator has integrated and run on the unchanged tree are claimed
 ENABLED = set(open(os.path.dirname(__file__) + "/enabled.txt").read().split())
-for f in sorted(glob.glob(os.path.dirname(__file__) + "/c[0-9][0-9].py")):
-    name = os.path.basename(f)[:-3]
-    m = importlib.import_module(name)
-    if hasattr(m, "REG") and name.upper() in ENABLED:
-        CHECKS[name.upper()] = m.REG
+for name in sorted(ENABLED):
+    m = importlib.import_module(name.lower())
+    CHECKS[name] = m.REG
 hc = os.path.dirname(__file__) + "/../hook_commits.txt"
 if os.path.exists(hc):
     HOOK_COMMITS = [l.strip() for l in open(hc) if l.strip()]
